@@ -203,6 +203,7 @@ class Sim:
         self.ntok = 0
         self.preempts = 0
         self.proc_tag = None
+        self.gc_tried = False
         self.tap = None
         self.spin_limit = self.knobs.get('spin_limit', 60000)
         self.fired = False
@@ -434,6 +435,17 @@ class Sim:
                     if nxt_time is None or t.stall_until < nxt_time:
                         nxt_time = t.stall_until
             if nxt_time is None:
+                if not self.gc_tried:
+                    # before declaring a hang: cyclic garbage (e.g. a half-built worker object holding sockets) would be
+                    # collected sooner or later in a real process; run the collector once and look again
+                    import gc
+                    self.gc_tried = True
+                    n0 = self.nsys
+                    gc.collect()
+                    self.probe('gc-at-quiescence')
+                    if self._runnable():
+                        self.probe('progress-only-after-gc')
+                    continue
                 self._finish('hang', {'blocked': self.blocked_report()})
                 return None
             if nxt_time > self.max_time:
